@@ -152,13 +152,20 @@ pub fn dump_rel(i: usize, mut rows: Vec<String>) -> String {
    out
 }
 
-pub trait Driver {
+pub trait Driver: Send {
    fn load(&mut self, rel: usize, rows: &[Sexp], append: bool) -> Option<()>;
    fn run(&mut self);
    /// run with the virtual deadline firing at the k-th clock reading; None if the program has no run_timeout
    fn run_timeout(&mut self, k: usize) -> Option<bool>;
    fn dump(&self) -> String;
    fn iters(&self) -> String;
+   /// run() inside a freshly built rayon pool of `n` threads (whatever pool the instance was constructed in)
+   fn run_in(&mut self, n: usize) {
+      let pool = ascent::rayon::ThreadPoolBuilder::new().num_threads(n).build().unwrap();
+      pool.install(|| self.run_here());
+   }
+   /// run() in the rayon context current at the call
+   fn run_here(&mut self);
 }
 
 pub type Factory = fn(par_pool: Option<usize>) -> Box<dyn Driver>;
@@ -192,7 +199,11 @@ pub fn main_loop(progs: &[(&str, Factory)]) {
                let inst = toks.get(2)?.atom()?.to_string();
                let pid = toks.get(3)?.atom()?;
                let f = progs.iter().find(|(n, _)| *n == pid)?.1;
-               insts.insert(inst, f(None));
+               let pool = match toks.get(5) {
+                  Some(n) => Some(n.atom()?.parse().ok()?),
+                  None => None,
+               };
+               insts.insert(inst, f(pool));
                Some("ok".into())
             },
             "load" | "push" => {
@@ -209,6 +220,43 @@ pub fn main_loop(progs: &[(&str, Factory)]) {
                let k: usize = toks.get(3)?.atom()?.parse().ok()?;
                let r = insts.get_mut(toks.get(2)?.atom()?)?.run_timeout(k)?;
                Some(format!("{}", r))
+            },
+            "runin" => {
+               let n: usize = toks.get(3)?.atom()?.parse().ok()?;
+               insts.get_mut(toks.get(2)?.atom()?)?.run_in(n);
+               Some("ok".into())
+            },
+            "perturb" => {
+               let seed: u64 = toks.get(2)?.atom()?.parse().ok()?;
+               ascent::internal::verif::set_perturbation(seed);
+               Some("ok".into())
+            },
+            "conc" => {
+               // run() of several instances at the same time, each on its own OS thread
+               let names: Vec<String> = toks[2..].iter().map(|t| t.atom().map(|s| s.to_string())).collect::<Option<_>>()?;
+               let mut taken: Vec<(String, Box<dyn Driver>)> = vec![];
+               for n in names {
+                  let d = insts.remove(&n)?;
+                  taken.push((n, d));
+               }
+               let barrier = std::sync::Barrier::new(taken.len());
+               let results: Vec<bool> = std::thread::scope(|s| {
+                  let hs: Vec<_> = taken
+                     .iter_mut()
+                     .map(|(_, d)| {
+                        let barrier = &barrier;
+                        s.spawn(move || {
+                           barrier.wait();
+                           std::panic::catch_unwind(std::panic::AssertUnwindSafe(|| d.run())).is_ok()
+                        })
+                     })
+                     .collect();
+                  hs.into_iter().map(|h| h.join().unwrap_or(false)).collect()
+               });
+               for (n, d) in taken {
+                  insts.insert(n, d);
+               }
+               Some(if results.iter().all(|b| *b) { "ok".into() } else { "panic in a concurrent run".into() })
             },
             "dump" => Some(insts.get(toks.get(2)?.atom()?)?.dump()),
             "iters" => Some(insts.get(toks.get(2)?.atom()?)?.iters()),
